@@ -186,3 +186,11 @@ theorem strip_pack (xs : List Str) (h : LastOk xs) : strip (pack xs) = pack xs :
   rw [stripL_pack, stripR_of_last _ (pack_last xs h)]
 
 end Idpy.LV
+
+namespace Idpy.LV
+/-- `lv_unpack(lv_pack(*xs)) == xs` when the last element does not end in whitespace -/
+theorem lv_pack_unpack (xs : List Str) (h : LastOk xs) : unpack (pack xs) = some xs := by
+  unfold unpack
+  simp only [strip_pack xs h]
+  exact unpackCore_pack xs _ (by omega)
+end Idpy.LV
